@@ -226,10 +226,6 @@ Fixpoint tot (segs : list seg) : Z :=
 (** well-formed audio table: non-empty, starts at 0, contiguous, frames of duration [F] *)
 Definition awf (F : Z) (segs : list seg) : Prop := segs <> [] /\ chain F 0 segs.
 
-(** the output interval [[A, B)] starts after the beginning of a VoD audio segment and ends before its end *)
-Definition inner (segs : list seg) (A B : Z) : bool :=
-  existsb (fun s => (s_start s <? A) && (A <? s_end s) && (B <? s_end s)) segs.
-
 (** source frame for position [g] of a loop with [n] frames: the last frame pads *)
 Definition clip (n g : Z) : Z := Z.min g (n - 1).
 
@@ -275,16 +271,6 @@ Proof.
   - rewrite lenZ_cons. pose proof (lenZ_nonneg p).
     replace (1 + lenZ p <=? 0) with false by lia.
     replace (1 + lenZ p - 1) with (lenZ p) by lia. now rewrite IH.
-Qed.
-
-Lemma in_inner segs A B s :
-  inner segs A B = false -> In s segs -> s_start s < A -> A < s_end s -> s_end s <= B.
-Proof.
-  unfold inner. intros H Hin H1 H2.
-  destruct (Z_le_gt_dec (s_end s) B) as [|G]; [assumption|exfalso].
-  assert (existsb (fun s => (s_start s <? A) && (A <? s_end s) && (B <? s_end s)) segs = true).
-  { apply existsb_exists. exists s. split; [assumption|lia]. }
-  congruence.
 Qed.
 
 (** ** ranges *)
@@ -384,18 +370,16 @@ Proof. intros. replace (x * F - y * F) with ((x - y) * F) by ring. apply Z.div_m
 (** * createAudioSeg: the loop over the VoD segments *)
 
 Section Loop.
-Variable fx : bool.     (* which version of L115: see Audio.seg_loop *)
 Variable F : Z.
 Hypothesis HF : 0 < F.
 Hypothesis HF32 : F < two32.
 
-(** with [startIdx = 0] the two versions of L115 assign the same [endIdx] *)
 Lemma last_end_any it tl cnt :
   i_start it = 0 -> 0 <= cnt < two32 ->
-  (if fx then set_last_end_rel (it :: tl) cnt else set_last_end (it :: tl) cnt)
+  set_last_end_rel (it :: tl) cnt
   = Ok ({| i_seg := i_seg it; i_start := 0; i_end := cnt; i_fill := i_fill it |} :: tl).
 Proof.
-  intros H0 Hc. destruct fx; cbn [set_last_end_rel set_last_end]; rewrite H0; [|reflexivity].
+  intros H0 Hc. cbn [set_last_end_rel]. rewrite H0.
   rewrite Z.add_0_l, u32_small by lia. reflexivity.
 Qed.
 
@@ -408,7 +392,7 @@ Lemma seg_loop_collect all A bF :
     all = pre ++ segs -> segs <> [] ->
     A < tot pre * F -> tot pre < bF ->
     exists its,
-      seg_loop fx F A (bF * F) (lenZ all - 1) segs (lenZ pre) (tot pre * F) tc (mk_itvl (lenZ pre) 0 :: acc)
+      seg_loop F A (bF * F) (lenZ all - 1) segs (lenZ pre) (tot pre * F) tc (mk_itvl (lenZ pre) 0 :: acc)
       = Ok (u64 (tc + (bF * F - tot pre * F)), its ++ acc)
       /\ expand all (rev its) = Ok (map (clip (tot all)) (rangeZ (tot pre) bF)).
 Proof.
@@ -484,7 +468,7 @@ Proof.
     assert (Ee : u32 (u64 (bF * F - off * F) / F) = bF - off).
     { rewrite u64_small by (unfold two32, two64 in *; nia).
       rewrite div_frames by lia. apply u32_small. lia. }
-    rewrite Ee. unfold mk_itvl at 1 2. rewrite last_end_any by (cbn [i_start]; lia).
+    rewrite Ee. unfold mk_itvl. rewrite last_end_any by (cbn [i_start]; lia).
     cbn [i_seg i_start i_fill bind last_dur].
     exists [{| i_seg := lenZ pre; i_start := 0; i_end := bF - off; i_fill := 0 |}]. split.
     + cbn [app]. f_equal. f_equal. unfold itvl_dur. cbn [i_start i_end].
@@ -496,20 +480,19 @@ Proof.
 Qed.
 
 (** Phase 1: nothing collected yet; segments that end at or before [A] are skipped, the first
-    interval starts in the segment that contains [A]. Not-inner case. *)
+    interval starts in the segment that contains [A]. *)
 Lemma seg_loop_first all aF bF :
   chain F 0 all -> tot all < two32 -> 0 <= aF -> aF <= bF -> bF < two32 ->
-  fx = true \/ inner all (aF * F) (bF * F) = false ->
   forall segs pre,
     all = pre ++ segs ->
     tot pre <= aF -> aF < tot pre + tot segs ->
     exists its,
-      seg_loop fx F (aF * F) (bF * F) (lenZ all - 1) segs (lenZ pre) (aF * F) 0 []
+      seg_loop F (aF * F) (bF * F) (lenZ all - 1) segs (lenZ pre) (aF * F) 0 []
       = Ok (u64 (bF * F - aF * F), its)
       /\ its <> []
       /\ expand all (rev its) = Ok (map (clip (tot all)) (rangeZ aF bF)).
 Proof.
-  intros Hall HN HaF Hab HbF Hinner segs.
+  intros Hall HN HaF Hab HbF segs.
   induction segs as [|s rest IH]; intros pre Eall Hle Hlt; [cbn [tot] in Hlt; lia|].
   assert (Hch := Hall). rewrite Eall in Hch. apply chain_app in Hch. destruct Hch as [Hpre Hs].
   replace (0 + tot pre * F) with (tot pre * F) in Hs by ring.
@@ -600,20 +583,11 @@ Proof.
       { rewrite u64_small by (unfold two32, two64 in *; nia).
         rewrite div_frames by lia. apply u32_small. lia. }
       rewrite Ee.
-      assert (Eacc : (if fx then set_last_end_rel [mk_itvl (lenZ pre) (aF - off)] (bF - aF)
-                      else set_last_end [mk_itvl (lenZ pre) (aF - off)] (bF - aF))
+      assert (Eacc : set_last_end_rel [mk_itvl (lenZ pre) (aF - off)] (bF - aF)
                      = Ok [{| i_seg := lenZ pre; i_start := aF - off; i_end := bF - off; i_fill := 0 |}]).
-      { destruct Hinner as [Hfx|Hinner].
-        - (* repaired code: endIdx = startIdx + count *)
-          rewrite Hfx. cbn [set_last_end_rel mk_itvl i_seg i_start i_fill].
-          replace (aF - off + (bF - aF)) with (bF - off) by ring. rewrite u32_small by lia. reflexivity.
-        - (* code as found: not inner, so the interval starts with the segment *)
-          assert (aF = off).
-          { destruct (Z.eq_dec aF off) as [|Hn]; [assumption|exfalso].
-            pose proof (in_inner all (aF * F) (bF * F) s Hinner Hin) as P.
-            rewrite Hst, Een in P. assert ((off + cnt) * F <= bF * F) by (apply P; nia). nia. }
-          subst aF. rewrite last_end_any by (cbn [i_start mk_itvl]; lia).
-          cbn [mk_itvl i_seg i_fill]. replace (off - off) with 0 by ring. reflexivity. }
+      { (* endIdx = startIdx + count *)
+        cbn [set_last_end_rel mk_itvl i_seg i_start i_fill].
+        replace (aF - off + (bF - aF)) with (bF - off) by ring. rewrite u32_small by lia. reflexivity. }
       rewrite Eacc. cbn [bind last_dur].
       exists [{| i_seg := lenZ pre; i_start := aF - off; i_end := bF - off; i_fill := 0 |}]. split; [|split].
       * f_equal. f_equal. unfold itvl_dur. cbn [i_start i_end].
@@ -645,81 +619,6 @@ Proof.
     cbn [tot]. lia.
 Qed.
 
-(** Phase 1, inner case: the defect. [endIdx] is set to the frame count, the collected time is
-    not the duration of the interval. *)
-Lemma seg_loop_first_inner all aF bF :
-  chain F 0 all -> tot all < two32 -> 0 <= aF -> aF <= bF -> bF < two32 ->
-  inner all (aF * F) (bF * F) = true ->
-  forall segs pre,
-    all = pre ++ segs ->
-    tot pre <= aF -> aF < tot pre + tot segs ->
-    exists tc its,
-      seg_loop false F (aF * F) (bF * F) (lenZ all - 1) segs (lenZ pre) (aF * F) 0 [] = Ok (tc, its)
-      /\ u64 (u64 (bF * F - aF * F) - tc) <> 0.
-Proof.
-  intros Hall HN HaF Hab HbF Hinner segs.
-  induction segs as [|s rest IH]; intros pre Eall Hle Hlt; [cbn [tot] in Hlt; lia|].
-  assert (Hch := Hall). rewrite Eall in Hch. apply chain_app in Hch. destruct Hch as [Hpre Hs].
-  replace (0 + tot pre * F) with (tot pre * F) in Hs by ring.
-  pose proof (chain_tot_nonneg _ _ _ Hpre) as Hoff.
-  assert (Htot : tot all = tot pre + s_cnt s + tot rest) by (rewrite Eall, tot_app; cbn [tot]; lia).
-  assert (Hs' := Hs).
-  cbn [chain] in Hs. destruct Hs as (Hst & Hcnt & Hen & Hrest).
-  pose proof (chain_tot_nonneg _ _ _ Hrest) as Hrn.
-  cbn [tot] in Hlt.
-  set (off := tot pre) in *. set (cnt := s_cnt s) in *.
-  assert (Een : s_end s = (off + cnt) * F) by (rewrite Hen; ring).
-  cbn [seg_loop]. rewrite Hst, Een.
-  destruct ((off + cnt) * F <=? aF * F) eqn:Cskip.
-  - assert (off + cnt <= aF) by nia.
-    specialize (IH (pre ++ [s])).
-    rewrite lenZ_app, lenZ_cons, lenZ_nil, tot_app in IH. cbn [tot] in IH. fold off cnt in IH.
-    replace (lenZ pre + (1 + 0)) with (lenZ pre + 1) in IH by ring.
-    apply IH; [now rewrite <- app_assoc|lia|lia].
-  - assert (Hin_s : aF < off + cnt) by nia.
-    (* the segment of the inner witness is this one *)
-    assert (Hw : off < aF /\ bF < off + cnt).
-    { unfold inner in Hinner. apply existsb_exists in Hinner. destruct Hinner as (x & Hx & Hb).
-      assert (Hx1 : s_start x < aF * F) by lia. assert (Hx2 : aF * F < s_end x) by lia.
-      assert (Hx3 : bF * F < s_end x) by lia. clear Hb.
-      rewrite Eall in Hx. apply in_app_or in Hx. destruct Hx as [Hx|[Hx|Hx]].
-      - pose proof (chain_bounds 0 pre x Hpre Hx). fold off in H. nia.
-      - subst x. rewrite Hst in Hx1. rewrite Een in Hx3. nia.
-      - pose proof (chain_bounds _ rest x Hrest Hx). rewrite Een in H. nia. }
-    destruct Hw as [Hw1 Hw2].
-    replace (aF * F <? (off + cnt) * F) with true by nia. cbn [is_nil andb].
-    assert (Ek : u32 (u64 (aF * F - off * F) / F) = aF - off).
-    { rewrite u64_small by (unfold two32, two64 in *; nia).
-      rewrite div_frames by lia. apply u32_small. lia. }
-    rewrite Ek.
-    replace (bF * F >=? (off + cnt) * F) with false by nia.
-    cbn [set_last_end mk_itvl i_seg i_start i_fill bind last_dur].
-    assert (Ee : u32 (u64 (bF * F - aF * F) / F) = bF - aF).
-    { rewrite u64_small by (unfold two32, two64 in *; nia).
-      rewrite div_frames by lia. apply u32_small. lia. }
-    rewrite Ee. eexists. eexists. split; [reflexivity|].
-    unfold itvl_dur. cbn [i_start i_end]. rewrite Z.add_0_l.
-    rewrite (u64_small (bF * F - aF * F)) by (unfold two32, two64 in *; nia).
-    set (k := aF - off) in *. set (c := bF - aF) in *.
-    assert (Hk : 0 < k < two32) by (unfold k; lia). assert (Hc : 0 <= c < two32) by (unfold c; lia).
-    replace (bF * F - aF * F) with (c * F) by (unfold c; ring).
-    destruct (Z_le_gt_dec k c) as [L|G].
-    + rewrite (u32_small (c - k)) by lia.
-      rewrite (u64_small ((c - k) * F)) by (unfold two32, two64 in *; nia).
-      rewrite (u64_small ((c - k) * F)) by (unfold two32, two64 in *; nia).
-      replace (c * F - (c - k) * F) with (k * F) by ring.
-      rewrite u64_small by (unfold two32, two64 in *; nia). nia.
-    + assert (Eu : u32 (c - k) = c - k + two32).
-      { unfold u32. symmetry. apply (Z.mod_unique _ _ (-1)); lia. }
-      rewrite Eu.
-      rewrite (u64_small ((c - k + two32) * F)) by (unfold two32, two64 in *; nia).
-      rewrite (u64_small ((c - k + two32) * F)) by (unfold two32, two64 in *; nia).
-      replace (c * F - (c - k + two32) * F) with ((k - two32) * F) by ring.
-      assert (Ew : u64 ((k - two32) * F) = (k - two32) * F + two64).
-      { unfold u64. symmetry. apply (Z.mod_unique _ _ (-1)); unfold two32, two64 in *; nia. }
-      rewrite Ew. unfold two32, two64 in *; nia.
-Qed.
-
 (** ** the interval computation and the produced segment *)
 
 Lemma start_search_zero segs A :
@@ -747,41 +646,21 @@ Lemma create_audio_seg_ok segs rc aF bF :
   0 <= aF -> aF <= bF -> bF < two32 -> aF < tot segs ->
   r_inStart rc = aF * F -> r_inEnd rc = bF * F -> r_after rc = 0 ->
   r_end rc - r_start rc = bF * F - aF * F ->
-  fx = true \/ inner segs (aF * F) (bF * F) = false ->
-  create_audio_seg fx F segs rc =
+  create_audio_seg F segs rc =
   Ok {| o_tfdt := r_start rc; o_seq := r_nr rc; o_frames := map (clip (tot segs)) (rangeZ aF bF) |}.
 Proof.
-  intros Hwf HN HL HaF Hab HbF Hreach EA EB Eafter Edur Hinner.
+  intros Hwf HN HL HaF Hab HbF Hreach EA EB Eafter Edur.
   unfold create_audio_seg, intervals. replace (F =? 0) with false by lia.
   rewrite EA, EB, Eafter, Edur.
   rewrite (start_search_zero segs (aF * F) Hwf HL) by nia. cbn [bind]. rewrite dropZ_0.
   destruct Hwf as [Hne Hc].
-  destruct (seg_loop_first segs aF bF Hc HN HaF Hab HbF Hinner segs [] eq_refl) as (its & E1 & E2 & E3);
+  destruct (seg_loop_first segs aF bF Hc HN HaF Hab HbF segs [] eq_refl) as (its & E1 & E2 & E3);
     [cbn [tot]; lia|cbn [tot]; lia|].
   change (lenZ (@nil seg)) with 0 in E1. rewrite E1. cbn [bind].
   rewrite Z.sub_diag. change (u64 0) with 0. cbn [Z.eqb negb Z.gtb Z.compare].
   cbn [bind]. rewrite E3. cbn [bind].
   destruct (rev its) eqn:R; [|reflexivity].
   exfalso. apply E2. apply (f_equal (@rev itvl)) in R. now rewrite rev_involutive in R.
-Qed.
-
-Lemma create_audio_seg_inner segs rc aF bF :
-  awf F segs -> tot segs < two32 -> tot segs * F < two63 ->
-  0 <= aF -> aF <= bF -> bF < two32 -> aF < tot segs ->
-  r_inStart rc = aF * F -> r_inEnd rc = bF * F -> r_after rc = 0 ->
-  r_end rc - r_start rc = bF * F - aF * F ->
-  inner segs (aF * F) (bF * F) = true ->
-  create_audio_seg false F segs rc = Err "audioLeft != audioInEndAfterWrap".
-Proof.
-  intros Hwf HN HL HaF Hab HbF Hreach EA EB Eafter Edur Hinner.
-  unfold create_audio_seg, intervals. replace (F =? 0) with false by lia.
-  rewrite EA, EB, Eafter, Edur.
-  rewrite (start_search_zero segs (aF * F) Hwf HL) by nia. cbn [bind]. rewrite dropZ_0.
-  destruct Hwf as [Hne Hc].
-  destruct (seg_loop_first_inner segs aF bF Hc HN HaF Hab HbF Hinner segs [] eq_refl) as (tc & its & E1 & E2);
-    [cbn [tot]; lia|cbn [tot]; lia|].
-  change (lenZ (@nil seg)) with 0 in E1. rewrite E1. cbn [bind].
-  replace (u64 (u64 (bF * F - aF * F) - tc) =? 0) with false by lia. reflexivity.
 Qed.
 
 End Loop.
@@ -825,46 +704,21 @@ Record served_pre (segs : list seg) (D w s' e' : Z) : Prop := {
 (** the input interval of the output segment, in media time of the VoD audio *)
 Definition in_start (D w s' : Z) : Z := f (w * D + s') - f (w * D).
 Definition in_end (D w e' : Z) : Z := f (w * D + e') - f (w * D).
-Definition not_inner (segs : list seg) (D w s' e' : Z) : Prop :=
-  inner segs (in_start D w s') (in_end D w e') = false.
-
-Lemma served_frames fx nr segs D w s' e' :
-  served_pre segs D w s' e' -> fx = true \/ not_inner segs D w s' e' ->
-  audio_segment fx nr (w * D + s') (w * D + e') D r F a segs =
+Lemma served_frames nr segs D w s' e' :
+  served_pre segs D w s' e' ->
+  audio_segment nr (w * D + s') (w * D + e') D r F a segs =
   Ok {| o_tfdt := f (w * D + s'); o_seq := nr;
         o_frames := map (fun g => Z.min (g - c (w * D)) (tot segs - 1))
                         (rangeZ (c (w * D + s')) (c (w * D + e'))) |}.
 Proof.
-  intros [] Hni. unfold audio_segment.
+  intros []. unfold audio_segment.
   rewrite (recipe_in_wrap r F a Hr HF Ha nr D w s' e') by assumption. cbn [bind].
   assert (HwD : 0 <= w * D) by nia.
   pose proof (fidx_mono r F a Hr HF Ha (w * D) (w * D + s') ltac:(lia)).
   pose proof (fidx_mono r F a Hr HF Ha (w * D + s') (w * D + e') ltac:(lia)).
-  rewrite (create_audio_seg_ok fx F HF HF32 segs _ (c (w * D + s') - c (w * D)) (c (w * D + e') - c (w * D)));
+  rewrite (create_audio_seg_ok F HF HF32 segs _ (c (w * D + s') - c (w * D)) (c (w * D + e') - c (w * D)));
     cbn [r_start r_end r_nr r_inStart r_inEnd r_after]; try assumption; try lia; try (unfold fb; ring).
-  - now rewrite map_clip_shift.
-  - destruct Hni as [Hfx|Hni]; [left; exact Hfx|right].
-    unfold not_inner, in_start, in_end, fb in Hni.
-    replace ((c (w * D + s') - c (w * D)) * F) with (c (w * D + s') * F - c (w * D) * F) by ring.
-    replace ((c (w * D + e') - c (w * D)) * F) with (c (w * D + e') * F - c (w * D) * F) by ring.
-    exact Hni.
-Qed.
-
-Lemma served_inner_fails nr segs D w s' e' :
-  served_pre segs D w s' e' -> ~ not_inner segs D w s' e' ->
-  audio_segment false nr (w * D + s') (w * D + e') D r F a segs = Err "audioLeft != audioInEndAfterWrap".
-Proof.
-  intros [] Hni. unfold audio_segment.
-  rewrite (recipe_in_wrap r F a Hr HF Ha nr D w s' e') by assumption. cbn [bind].
-  assert (HwD : 0 <= w * D) by nia.
-  pose proof (fidx_mono r F a Hr HF Ha (w * D) (w * D + s') ltac:(lia)).
-  pose proof (fidx_mono r F a Hr HF Ha (w * D + s') (w * D + e') ltac:(lia)).
-  apply (create_audio_seg_inner F HF HF32 segs _ (c (w * D + s') - c (w * D)) (c (w * D + e') - c (w * D)));
-    cbn [r_start r_end r_nr r_inStart r_inEnd r_after]; try assumption; try lia; try (unfold fb; ring).
-  unfold not_inner, in_start, in_end, fb in Hni.
-  replace ((c (w * D + s') - c (w * D)) * F) with (c (w * D + s') * F - c (w * D) * F) by ring.
-  replace ((c (w * D + e') - c (w * D)) * F) with (c (w * D + e') * F - c (w * D) * F) by ring.
-  destruct (inner segs _ _); [reflexivity|congruence].
+  now rewrite map_clip_shift.
 Qed.
 
 End Served.
@@ -1076,9 +930,6 @@ Record ref_pre (segs : list seg) (n : Z) : Prop := {
   rp_b32 : c (Ev n) - c (loop_start n) < two32
 }.
 
-Definition ref_not_inner (segs : list seg) (n : Z) : Prop :=
-  inner segs (f (Sv n) - f (loop_start n)) (f (Ev n) - f (loop_start n)) = false.
-
 Lemma ref_decompose n : 0 <= n ->
   let w := n / Nv in let i := n mod Nv in
   let s' := Timeline.st (Timeline.segAt vr i) in let e' := Timeline.en (Timeline.segAt vr i) in
@@ -1106,78 +957,35 @@ Proof.
 Qed.
 
 (** C03_frames: the served audio segment for reference segment [n]. *)
-Lemma ref_served_frames fx nr segs n :
-  ref_pre segs n -> fx = true \/ ref_not_inner segs n ->
-  audio_segment fx nr (Sv n) (Ev n) Dv r F a segs =
+Lemma ref_served_frames nr segs n :
+  ref_pre segs n ->
+  audio_segment nr (Sv n) (Ev n) Dv r F a segs =
   Ok {| o_tfdt := f (Sv n); o_seq := nr;
         o_frames := map (fun g => Z.min (g - c (loop_start n)) (tot segs - 1))
                         (rangeZ (c (Sv n)) (c (Ev n))) |}.
 Proof.
-  intros P Hni. pose proof (ref_served_pre segs n P) as SP.
+  intros P. pose proof (ref_served_pre segs n P) as SP.
   destruct (ref_decompose n (rp_n _ _ P)) as (ES & EE & _).
-  unfold ref_not_inner, loop_start in *. rewrite ES, EE in *.
+  unfold loop_start in *. rewrite ES, EE in *.
   apply served_frames; assumption.
 Qed.
 
-(** the two instances: the code as found, and the code with proposed_fixes/C03-endidx.diff *)
-Lemma ref_served_frames_found nr segs n :
-  ref_pre segs n -> ref_not_inner segs n ->
-  audio_segment false nr (Sv n) (Ev n) Dv r F a segs =
-  Ok {| o_tfdt := f (Sv n); o_seq := nr;
-        o_frames := map (fun g => Z.min (g - c (loop_start n)) (tot segs - 1))
-                        (rangeZ (c (Sv n)) (c (Ev n))) |}.
-Proof. intros. apply ref_served_frames; [assumption|now right]. Qed.
-
-Lemma ref_served_frames_fixed nr segs n :
-  ref_pre segs n ->
-  audio_segment true nr (Sv n) (Ev n) Dv r F a segs =
-  Ok {| o_tfdt := f (Sv n); o_seq := nr;
-        o_frames := map (fun g => Z.min (g - c (loop_start n)) (tot segs - 1))
-                        (rangeZ (c (Sv n)) (c (Ev n))) |}.
-Proof. intros. apply ref_served_frames; [assumption|now left]. Qed.
-
-Lemma ref_served_inner_fails nr segs n :
-  ref_pre segs n -> ~ ref_not_inner segs n ->
-  audio_segment false nr (Sv n) (Ev n) Dv r F a segs = Err "audioLeft != audioInEndAfterWrap".
-Proof.
-  intros P Hni. pose proof (ref_served_pre segs n P) as SP.
-  destruct (ref_decompose n (rp_n _ _ P)) as (ES & EE & _).
-  unfold ref_not_inner, loop_start in *. rewrite ES, EE in *.
-  apply served_inner_fails; assumption.
-Qed.
-
-(** the request is answered with a segment exactly when the output interval is not inner *)
-Lemma ref_served_iff nr segs n :
-  ref_pre segs n ->
-  ((exists o, audio_segment false nr (Sv n) (Ev n) Dv r F a segs = Ok o) <-> ref_not_inner segs n).
-Proof.
-  intros P. split.
-  - intros [o Ho]. unfold ref_not_inner.
-    destruct (inner segs _ _) eqn:I; [|reflexivity].
-    rewrite (ref_served_inner_fails nr segs n P) in Ho; [discriminate|].
-    unfold ref_not_inner. rewrite I. discriminate.
-  - intros Hni. eexists. apply ref_served_frames_found; assumption.
-Qed.
-
-(** C03_abut: whenever two consecutive segments are served, the first starts at the frame boundary
+(** C03_abut: two consecutive segments are served, the first starts at the frame boundary
     of its reference start, holds [(end - start)/F] frames of duration [F], and the second starts
     exactly where the first ends -- also when [n+1] is the first segment of the next loop. *)
-Lemma ref_abut fx nr1 nr2 segs n o1 o2 :
+Lemma ref_abut nr1 nr2 segs n :
   ref_pre segs n -> ref_pre segs (n + 1) ->
-  audio_segment fx nr1 (Sv n) (Ev n) Dv r F a segs = Ok o1 ->
-  audio_segment fx nr2 (Sv (n + 1)) (Ev (n + 1)) Dv r F a segs = Ok o2 ->
+  exists o1 o2,
+  audio_segment nr1 (Sv n) (Ev n) Dv r F a segs = Ok o1 /\
+  audio_segment nr2 (Sv (n + 1)) (Ev (n + 1)) Dv r F a segs = Ok o2 /\
   o_tfdt o1 = f (Sv n) /\
   lenZ (o_frames o1) = (f (Ev n) - f (Sv n)) / F /\
   (f (Ev n) - f (Sv n)) mod F = 0 /\
   o_tfdt o1 + lenZ (o_frames o1) * F = o_tfdt o2.
 Proof.
-  intros P1 P2 H1 H2.
-  assert (N1 : fx = true \/ ref_not_inner segs n).
-  { destruct fx; [now left|right]. apply (ref_served_iff nr1 segs n P1); eauto. }
-  assert (N2 : fx = true \/ ref_not_inner segs (n + 1)).
-  { destruct fx; [now left|right]. apply (ref_served_iff nr2 segs (n + 1) P2); eauto. }
-  rewrite (ref_served_frames fx nr1 segs n P1 N1) in H1. injection H1 as <-.
-  rewrite (ref_served_frames fx nr2 segs (n + 1) P2 N2) in H2. injection H2 as <-.
+  intros P1 P2.
+  rewrite (ref_served_frames nr1 segs n P1), (ref_served_frames nr2 segs (n + 1) P2).
+  eexists. eexists. split; [reflexivity|]. split; [reflexivity|].
   cbn [o_tfdt o_frames].
   pose proof (TimelineProofs.S_E_contiguous vr loopMS W n (rp_n _ _ P1)) as Hc.
   pose proof (TimelineProofs.S_lt_E vr loopMS W n (rp_n _ _ P1)) as Hlt.
@@ -1269,27 +1077,21 @@ Proof.
     rewrite cdiv_add_mult in M by lia. unfold two32. lia.
 Qed.
 
-(** C03_inner_refuted: asset a8v2, reference segment 1 = [180000, 360000) of 90 kHz: the output
-    interval [93/375 .. 188/375) lies strictly inside the only VoD audio segment; the request fails. *)
-Lemma inner_refuted_witness :
+(** Asset a8v2, reference segment 1 = [180000, 360000) of 90 kHz: the output interval is frames
+    94..187 of the 375 frames of the only VoD audio segment, i.e. it starts after the beginning of
+    that segment and ends before its end. (Before fix fc72486 this request failed with "audioLeft !=
+    audioInEndAfterWrap": finding audio-inner-interval-500.) *)
+Lemma inner_served_witness :
   ref_pre 90000 1024 48000 w_video w_audio8 1 /\
-  ~ ref_not_inner 90000 1024 48000 w_video w_audio8 1 /\
-  audio_segment false 1 (Timeline.S w_video 1) (Timeline.E w_video 1) (Timeline.repDuration w_video)
-                90000 1024 48000 w_audio8 = Err "audioLeft != audioInEndAfterWrap".
-Proof.
-  split; [|split].
-  - apply w_ref_pre; try (vm_compute; reflexivity).
-    + split; [discriminate|]. cbn. repeat split; reflexivity.
-  - unfold ref_not_inner. vm_compute. discriminate.
-  - vm_compute. reflexivity.
-Qed.
-
-(** the same request with proposed_fixes/C03-endidx.diff applied: source frames 94..187 *)
-Lemma inner_fixed_witness :
-  audio_segment true 1 (Timeline.S w_video 1) (Timeline.E w_video 1) (Timeline.repDuration w_video)
+  audio_segment 1 (Timeline.S w_video 1) (Timeline.E w_video 1) (Timeline.repDuration w_video)
                 90000 1024 48000 w_audio8
   = Ok {| o_tfdt := 96256; o_seq := 1; o_frames := rangeZ 94 188 |}.
-Proof. vm_compute. reflexivity. Qed.
+Proof.
+  split.
+  - apply w_ref_pre; try (vm_compute; reflexivity).
+    split; [discriminate|]. cbn. repeat split; reflexivity.
+  - vm_compute. reflexivity.
+Qed.
 
 (** C03_short_audio_refuted: an audio table that does not reach the start of the reference segment.
     With the first two 2 s audio segments against the 8 s video loop, reference segment 2 gives an
@@ -1300,9 +1102,9 @@ Definition w_audio_quarter : list seg := [ Build_seg 0 96256 94 ].
 
 Lemma short_audio_refuted_witness :
   awf 1024 w_audio_half /\ awf 1024 w_audio_quarter /\
-  audio_segment false 2 (Timeline.S w_video 2) (Timeline.E w_video 2) (Timeline.repDuration w_video)
+  audio_segment 2 (Timeline.S w_video 2) (Timeline.E w_video 2) (Timeline.repDuration w_video)
                 90000 1024 48000 w_audio_half = Err "audioLeft != audioInEndAfterWrap" /\
-  audio_segment false 3 (Timeline.S w_video 3) (Timeline.E w_video 3) (Timeline.repDuration w_video)
+  audio_segment 3 (Timeline.S w_video 3) (Timeline.E w_video 3) (Timeline.repDuration w_video)
                 90000 1024 48000 w_audio_quarter = Panic "createAudioSeg: index out of range (rep.Segments[startNr])".
 Proof.
   split; [|split; [|split]].
@@ -1317,17 +1119,14 @@ Qed.
     then the last frame (371) three more times; the next segment starts at source frame 0. *)
 Lemma frames_example :
   ref_pre 90000 1024 48000 w_video w_audio2short 11 /\
-  ref_not_inner 90000 1024 48000 w_video w_audio2short 11 /\
-  (forall o, audio_segment false 12 (Timeline.S w_video 11) (Timeline.E w_video 11) (Timeline.repDuration w_video)
-                           90000 1024 48000 w_audio2short = Ok o ->
-             o_tfdt o = 1056768 /\ o_seq o = 12 /\
-             o_frames o = rangeZ 282 372 ++ [371; 371; 371]).
+  audio_segment 12 (Timeline.S w_video 11) (Timeline.E w_video 11) (Timeline.repDuration w_video)
+                90000 1024 48000 w_audio2short
+  = Ok {| o_tfdt := 1056768; o_seq := 12; o_frames := rangeZ 282 372 ++ [371; 371; 371] |}.
 Proof.
-  split; [|split].
+  split.
   - apply w_ref_pre; try (vm_compute; reflexivity).
     split; [discriminate|]. cbn. repeat split; reflexivity.
-  - unfold ref_not_inner. vm_compute. reflexivity.
-  - intros o. vm_compute. intros H. injection H as <-. repeat split.
+  - vm_compute. reflexivity.
 Qed.
 
 (** * C03_boundary, collected *)
